@@ -564,6 +564,41 @@ example : multi [((12 : Rat), 9893 / 10000), (1300335483507 / 100000000000, 107 
     (fun k => if k = 2500335483507 / 100000000000 then 1 else 0) = 2 * (9893 / 10000) * (107 / 10000) := by
   decide +kernel
 
+/-- **no_error_after_element_loop**: once the element loop has produced a non-empty distribution, normalisation, shifting and
+scaling never fail (no `max()` of an empty dict, no division by zero), for every option value. -/
+theorem no_error_after_element_loop (f : Formula) (o : Opts) (t : Dist Rat) (p d m : Rat)
+    (hraw : rawDistribution f o = .ok (t, p, d, m)) (hne : t ≠ []) :
+    ∃ out, isotopicDistribution f o = .ok out := by
+  obtain ⟨L, hL, ht, _⟩ := rawDistribution_ok f o t p d m hraw
+  have hpos : AllPos t := ht ▸ allPos_convolveList _ _ _ _ L _ (listPos_of_resolve o _ L hL) allPos_start
+  unfold isotopicDistribution
+  rw [hraw]
+  simp only []
+  rw [finishDistribution_eq]
+  cases hm : maxAb t with
+  | none => exact absurd (maxAb_eq_none t hm) hne
+  | some mx =>
+    obtain ⟨⟨q, hq, hqm⟩, _⟩ := maxAb_spec _ mx hm
+    have hmxpos : 0 < mx := hqm ▸ hpos q hq
+    simp only [ne_of_gt hmxpos, if_false]
+    generalize hW : (normalized o t mx).map (fun q => (shiftFn o p d m q.1, q.2)) = W
+    have hWpos : AllPos W := by
+      subst hW
+      intro r hr
+      simp only [List.mem_map, normalized, List.mem_filter, Prod.exists] at hr
+      obtain ⟨k1, a1, ⟨k2, a2, ⟨⟨hmem, _⟩, rfl, rfl⟩⟩, rfl⟩ := hr
+      exact div_pos (hpos _ ((sortByKey_perm t).mem_iff.1 hmem)) hmxpos
+    unfold scaleAbundances
+    cases o.isAbundanceSum with
+    | false => exact ⟨_, rfl⟩
+    | true =>
+      simp only [if_true]
+      by_cases hWe : W = []
+      · subst hWe; simp [sumAb, Except.map]
+      · have := sumAb_pos W hWpos hWe
+        simp only [ne_of_gt this, if_false]
+        exact ⟨_, rfl⟩
+
 /-! ## non-vacuity: concrete inputs satisfying the hypotheses -/
 
 /-- C2 H4 e-1 (the witness of the repaired particle-offset defect) and C2.5 H4 S1 p1 -/
@@ -585,5 +620,15 @@ example : (match rawDistribution [(keyC, .int 2)] exO with
     | .error _ => false) = true := by decide +kernel
 example : integral (convolve id none none [((1 : Rat), 1 / 2), (2, 1 / 2)] [((1 : Rat), 1 / 2), (2, 1 / 2)]) (fun k => if k = 3 then 1 else 0) = 1 / 2 := by
   decide +kernel
+
+/-- the hypotheses `isotopicDistribution f o = .ok out` of the theorems above are satisfiable -/
+example : ∃ out, isotopicDistribution exF1 exO = .ok out := by
+  have h : rawOk exF1 exO = true := by decide +kernel
+  unfold rawOk at h
+  split at h
+  · next t p d m hraw =>
+    exact no_error_after_element_loop exF1 exO t p d m hraw (by intro h0; subst h0; simp at h)
+  · cases h
+
 
 end C14
